@@ -304,63 +304,123 @@ func pnftHistory(e *pnftEnv, rng *rand.Rand, p pnftPools, steps int) {
 	pd := func() string { return p.denoms[rng.Intn(len(p.denoms))] }
 	pi := func() string { return p.ids[rng.Intn(len(p.ids))] }
 	opt := func() string { return []string{"", "", "x", "yy"}[rng.Intn(4)] }
-	owner := map[string]string{}
+	owner := map[string]string{} // believed denom owner (aiming only)
+	type tk struct{ d, i string }
+	tokOwner := map[tk]string{}
+	tokCreator := map[tk]string{}
+	pickTok := func() (tk, bool) {
+		if len(tokOwner) == 0 {
+			return tk{}, false
+		}
+		keys := make([]string, 0, len(tokOwner))
+		for k := range tokOwner {
+			keys = append(keys, k.d+"\x00\x00"+k.i)
+		}
+		sortStrings(keys)
+		parts := strings.SplitN(keys[rng.Intn(len(keys))], "\x00\x00", 2)
+		return tk{parts[0], parts[1]}, true
+	}
+	other := func(not string) string {
+		for tries := 0; tries < 5; tries++ {
+			a := p.addrs[rng.Intn(len(p.addrs))]
+			if a != not {
+				return a
+			}
+		}
+		return p.addrs[0]
+	}
 	for i := 0; i < steps; i++ {
 		if rng.Intn(5) == 0 {
 			now += int64(1 + rng.Intn(5000))
 			e.now(now)
 		}
-		switch r := rng.Intn(24); {
+		aim := rng.Intn(10) < 8
+		switch r := rng.Intn(26); {
 		case r < 3:
 			d, a := pd(), pa()
-			if e.msg(&pnfttypes.MsgCreateDenomRequest{Id: d, Name: []string{"n", "n", ""}[rng.Intn(3)], Symbol: "s", Description: opt(), Uri: opt(), UriHash: opt(), Data: opt(), Creator: a}) {
+			if e.msg(&pnfttypes.MsgCreateDenomRequest{Id: d, Name: []string{"n", "n", "n", ""}[rng.Intn(4)], Symbol: "s", Description: opt(), Uri: opt(), UriHash: opt(), Data: opt(), Creator: a}) {
 				owner[d] = a
 			}
 		case r < 5:
 			d := pd()
 			a := pa()
-			if o, ok := owner[d]; ok && rng.Intn(3) != 0 {
+			if o, ok := owner[d]; ok && aim {
 				a = o
 			}
 			e.msg(&pnfttypes.MsgUpdateDenomRequest{Id: d, Name: opt(), Symbol: opt(), Description: opt(), Uri: opt(), UriHash: opt(), Data: opt(), Updater: a})
-		case r < 6:
+		case r < 7:
 			d := pd()
 			a := pa()
-			if o, ok := owner[d]; ok && rng.Intn(3) != 0 {
+			if o, ok := owner[d]; ok && aim {
 				a = o
 			}
 			if e.msg(&pnfttypes.MsgDeleteDenomRequest{Id: d, Remover: a}) {
 				delete(owner, d)
 			}
-		case r < 8:
+		case r < 9:
 			d := pd()
 			a, b := pa(), pa()
-			if o, ok := owner[d]; ok && rng.Intn(3) != 0 {
+			if o, ok := owner[d]; ok && aim {
 				a = o
 			}
 			if e.msg(&pnfttypes.MsgTransferDenomRequest{Id: d, Sender: a, Receiver: b}) {
 				owner[d] = b
 			}
-		case r < 13:
+		case r < 14:
 			d := pd()
 			a := pa()
-			if o, ok := owner[d]; ok && rng.Intn(4) != 0 {
+			if o, ok := owner[d]; ok && aim {
 				a = o
 			}
-			e.msg(&pnfttypes.MsgMintPNFTRequest{DenomId: d, Id: pi(), Name: []string{"t", "t", ""}[rng.Intn(3)], Description: opt(), Uri: opt(), UriHash: opt(), Data: opt(), Creator: a})
-		case r < 16:
-			e.msg(&pnfttypes.MsgTransferPNFTRequest{DenomId: pd(), Id: pi(), Sender: pa(), Receiver: pa()})
+			id := pi()
+			if e.msg(&pnfttypes.MsgMintPNFTRequest{DenomId: d, Id: id, Name: []string{"t", "t", "t", ""}[rng.Intn(4)], Description: opt(), Uri: opt(), UriHash: opt(), Data: opt(), Creator: a}) {
+				tokOwner[tk{d, id}] = a
+				tokCreator[tk{d, id}] = a
+			}
 		case r < 18:
-			e.msg(&pnfttypes.MsgBurnPNFTRequest{DenomId: pd(), Id: pi(), Burner: pa()})
-		case r == 18:
-			e.qDenom(pd())
-		case r == 19:
-			e.qDenoms(genPage(rng, nil))
-		case r == 20:
-			e.qDenomsByOwner(pa())
+			k, ok := pickTok()
+			if !ok || !aim {
+				k = tk{pd(), pi()}
+			}
+			snd := pa()
+			if o, ok2 := tokOwner[k]; ok2 && rng.Intn(10) < 8 {
+				snd = o
+			}
+			rcv := other(snd)
+			if rng.Intn(15) == 0 {
+				rcv = pa()
+			}
+			if e.msg(&pnfttypes.MsgTransferPNFTRequest{DenomId: k.d, Id: k.i, Sender: snd, Receiver: rcv}) {
+				tokOwner[k] = rcv
+			}
+		case r < 21:
+			k, ok := pickTok()
+			if !ok || !aim {
+				k = tk{pd(), pi()}
+			}
+			b := pa()
+			switch rng.Intn(4) {
+			case 0, 1:
+				if o, ok2 := tokOwner[k]; ok2 {
+					b = o
+				}
+			case 2: // the creator, who may no longer be the owner
+				if c, ok2 := tokCreator[k]; ok2 {
+					b = c
+				}
+			}
+			if e.msg(&pnfttypes.MsgBurnPNFTRequest{DenomId: k.d, Id: k.i, Burner: b}) {
+				delete(tokOwner, k)
+				delete(tokCreator, k)
+			}
 		case r == 21:
-			e.qPNFTs(pd())
+			e.qDenom(pd())
 		case r == 22:
+			e.qDenoms(genPage(rng, nil))
+		case r == 23:
+			e.qDenomsByOwner(pa())
+		case r == 24:
+			e.qPNFTs(pd())
 			e.qPNFTsBy(pd(), pa())
 		default:
 			e.qPNFT(pd(), pi())
